@@ -341,6 +341,11 @@ func (node *Node) load(ctx context.Context) error {
 func (node *Node) Run(ctx context.Context) error {
 	ctx = logger.ContextWithLogSubSystem(ctx, SubSystem)
 
+	// An earlier Run of this node can have ended, with an error or by a Stop. This one is running.
+	node.lock.Lock()
+	node.stopped = false
+	node.lock.Unlock()
+
 	var err error = nil
 	if err = node.load(ctx); err != nil {
 		// Nothing is running, so Stop must not wait for it.
